@@ -1098,6 +1098,32 @@ def check_reopen(ctx):
                 bad = dict(recorded=v, running=str(cur), loaded=loaded,
                            should_load=not newer)
                 break
+        # A-SEMVER: the library's comparison is the precedence order of the
+        # semver 2.0 specification (the chains of its section 11, written
+        # down here independently of the library)
+        chains = [["1.0.0-alpha", "1.0.0-alpha.1", "1.0.0-alpha.beta",
+                   "1.0.0-beta", "1.0.0-beta.2", "1.0.0-beta.11",
+                   "1.0.0-rc.1", "1.0.0"],
+                  ["1.0.0", "2.0.0", "2.1.0", "2.1.1"],
+                  ["0.9.9", "0.10.0", "0.10.1", "1.0.0-0", "1.0.0"]]
+        sv_bad = None
+        sv_n = 0
+        for ch in chains:
+            for i_, a_ in enumerate(ch):
+                for j_, b_ in enumerate(ch):
+                    sv_n += 1
+                    got = semver.Version.parse(a_).compare(b_)
+                    want = (i_ > j_) - (i_ < j_)
+                    if (got > 0) - (got < 0) != want:
+                        sv_bad = dict(a=a_, b=b_, compare=got, expected=want)
+        if semver.Version.parse("1.0.0+build1").compare("1.0.0+build2") != 0:
+            sv_bad = dict(a="1.0.0+build1", b="1.0.0+build2",
+                          what="build metadata must be ignored")
+        out.append(C.result("semver.Version.compare is the precedence order of "
+                            "the semver 2.0 specification (chains of its "
+                            "section 11)", sv_bad is None,
+                            function="DatasetBase._load", evaluations=sv_n,
+                            witness=sv_bad))
         out.append(C.result("a dataset recorded by a newer version is refused, "
                             "same or older loads (semver precedence)",
                             bad is None, function="DatasetBase._load",
